@@ -3,6 +3,6 @@ CONSTANTS
  Peers = {1, 2, 3}
  MaxSends = 6
  MaxCancels = 2
- Dev = {"no_push_back"}
+ Dev = {"pop_before_send"}
 INVARIANT Refines
 CHECK_DEADLOCK FALSE
